@@ -327,6 +327,8 @@ func runC06(p params) error {
 			c06AddCase(out, "large-writes", in)
 		}
 	}
+	// configurations used through Config.Clone carry the fields this property depends on
+	cloneCases(out, []string{"tlcp"}, map[string][]string{"tlcp": {"DynamicRecordSizingDisabled"}})
 	return out.Finish()
 }
 
